@@ -239,3 +239,74 @@ Lemma optional_placeholder prog a ls :
 Proof.
   intros Hp Hk E. unfold validate_optional. apply (fast_eq_iff _ _ Hk Hp) in E. now rewrite E.
 Qed.
+
+(* ---------------- Vec<T> ---------------- *)
+Definition acct_ok (a : acct) : Prop := key_ok (a_key a) /\ key_ok (a_owner a).
+
+Fixpoint validate_each (accs : list acct) (ls : list layer) : out unit :=
+  match accs with
+  | [] => Ok tt
+  | a :: r => do _ <- validate_layers a ls; validate_each r ls
+  end.
+
+Lemma validate_vec_unfold accs ls form k :
+  validate_vec accs ls form k =
+  if (form =? 2) && (k <? zlen accs) then Err PE_INVALID_ARGUMENT
+  else if (form =? 3) && negb (k =? zlen accs) then Err PE_INVALID_ARGUMENT
+  else validate_each accs ls.
+Proof.
+  unfold validate_vec. destruct ((form =? 2) && (k <? zlen accs)); [reflexivity|].
+  destruct ((form =? 3) && negb (k =? zlen accs)); [reflexivity|].
+  induction accs as [|a r IH]; [reflexivity|]. cbn [validate_each]. now rewrite <- IH.
+Qed.
+
+Lemma validate_layers_no_panic a ls : validate_layers a ls = Ok tt \/ exists c, validate_layers a ls = Err c.
+Proof.
+  induction ls as [|l ls IH]; cbn [validate_layers]; [now left|].
+  destruct (layer_check_no_panic a l) as [H|[c H]]; rewrite H; cbn [obind]; [exact IH|right; eauto].
+Qed.
+
+Lemma validate_each_iff accs ls :
+  Forall acct_ok accs -> Forall layer_wf ls ->
+  (validate_each accs ls = Ok tt <-> Forall (fun a => Forall (layer_ok a) ls) accs).
+Proof.
+  intros Ha Hwf. induction Ha as [|a r [Hk Ho] _ IH]; cbn [validate_each]; [split; auto|].
+  pose proof (validate_layers_iff a ls Hk Ho Hwf) as Hl.
+  destruct (validate_layers_no_panic a ls) as [H|[c H]]; rewrite H; cbn [obind].
+  - split; intros H0; [constructor; [now apply Hl|now apply IH]|inversion H0; subst; now apply IH].
+  - split; intros H0; [discriminate|]. inversion H0; subst.
+    match goal with H1 : Forall (layer_ok a) ls |- _ => apply Hl in H1; congruence end.
+Qed.
+
+(* a Vec of accounts is accepted iff the argument form fits the number of accounts and EVERY account satisfies every layer *)
+Lemma validate_vec_iff accs ls form k :
+  Forall acct_ok accs -> Forall layer_wf ls ->
+  (validate_vec accs ls form k = Ok tt <-> args_fit form k (zlen accs) /\ Forall (fun a => Forall (layer_ok a) ls) accs).
+Proof.
+  intros Ha Hwf. rewrite validate_vec_unfold. unfold args_fit.
+  destruct (form =? 2) eqn:E2; destruct (form =? 3) eqn:E3; cbn [andb]; zb; try lia.
+  - destruct (k <? zlen accs) eqn:E; zb.
+    + split; [discriminate|intros [[H _] _]; specialize (H E2); lia].
+    + rewrite (validate_each_iff accs ls Ha Hwf). split; [intros H; split; [split; intros; lia|exact H]|tauto].
+  - destruct (k =? zlen accs) eqn:E; cbn [negb]; zb.
+    + rewrite (validate_each_iff accs ls Ha Hwf). split; [intros H; split; [split; intros; lia|exact H]|tauto].
+    + split; [discriminate|intros [[_ H] _]; specialize (H E3); lia].
+  - rewrite (validate_each_iff accs ls Ha Hwf). split; [intros H; split; [split; intros; lia|exact H]|tauto].
+Qed.
+
+(* accounts after the first failing one do not change the verdict: the error is the first failing account's *)
+Lemma validate_each_first_error pre a post ls c :
+  validate_each pre ls = Ok tt -> validate_layers a ls = Err c -> validate_each (pre ++ a :: post) ls = Err c.
+Proof.
+  induction pre as [|p pre IH]; cbn [validate_each app]; intros H1 H2; [now rewrite H2|].
+  destruct (validate_layers p ls) as [[]| | |]; cbn [obind] in *; try discriminate. now apply IH.
+Qed.
+
+(* in particular NO account is skipped: one failing account anywhere makes the whole Vec fail *)
+Lemma validate_vec_no_account_skipped accs ls form k a :
+  Forall acct_ok accs -> Forall layer_wf ls -> In a accs -> ~ Forall (layer_ok a) ls ->
+  validate_vec accs ls form k <> Ok tt.
+Proof.
+  intros Ha Hwf Hin Hbad H. apply (validate_vec_iff accs ls form k Ha Hwf) in H as [_ H].
+  rewrite Forall_forall in H. exact (Hbad (H a Hin)).
+Qed.
